@@ -74,7 +74,11 @@ def run_explore_check(prop, tier, jobs, only=None, time_s=None, note="", assumpt
         futs = {ex.submit(vlib.build_harness, f"harness/{h}.cpp", cfg, **HARNESS_KW.get(h, {})): (h, cfg) for (h, cfg) in exes}
         for f in cf.as_completed(futs):
             exes[futs[f]] = f.result()  # BuildError propagates
-    per_job_time = max(20, int(budget - (time.time() - t0) - 10)) if tier != "quick" else 35
+    # wall budget: quick ~ 35 s per configuration; thorough: 1400 s of 16 cores shared by all configurations
+    if tier == "quick":
+        per_job_time = 35
+    else:
+        per_job_time = int(max(60, min(900, 1400 * vlib.NCPU / max(1, len(jobs)))))
     argv_jobs = []
     for j in jobs:
         argv = [exes[(j["h"], j["cfg"])]] + shlex.split(j["args"]) + ["--time_s", str(per_job_time), "--name", j["name"]]
@@ -228,6 +232,7 @@ def pool_suite(tier, cfgs, extra="", fams=("member",), need=()):
             if fam == "member":
                 shapes = [
                     ("node", "constant", "--ns 16 --bs 64 --L 4 --B 2 --arrays 2", ("grew",)),
+                    ("node", "constant", "--ns 16 --bs 96 --L 3 --B 2 --arrays 3 --max_states 400000", ("grew",)),
                     ("node", "fixed", "--ns 16 --bs 96 --L 6 --B 2 --arrays 2", ("alloc_oom",)),
                     ("array", "constant", "--ns 16 --bs 80 --L 5 --B 3 --arrays 2", ("grew",)),
                     ("array", "constant", "--ns 16 --bs 96 --L 4 --B 2 --arrays 3 --objhi 1", ("grew",)),
